@@ -14,6 +14,7 @@
 import YtkModel.Generated.Constants
 import YtkProofs.DocSet
 import YtkProofs.DecisionsDocSet
+import YtkProofs.FuncsDomDocSet
 import YtkProofs.FuncsLemmas
 
 namespace Ytk.C18
@@ -361,5 +362,19 @@ theorem Unique_loop1_eq (xs acc : List String) : Funcs.Unique_loop1 xs acc = Doc
 /-- utils.Unique, as translated from the source, is the model's `DocSet.unique` (all lists) -/
 theorem Unique_generated_eq_model (xs : List String) : Funcs.Unique xs = DocSet.unique xs := by
   simp [Funcs.Unique, DocSet.unique, Unique_loop1_eq]
+
+end Ytk.C18
+
+/-! ## xlate7d: the REGENERATED translation of `containsAnyOf` (the tag test of TaggedSubset) -/
+namespace Ytk.C18
+open Ytk.Generated
+
+theorem containsAnyOf_generated_eq_model (col cs : List String) :
+    FuncsAnalytics.containsAnyOf col cs = DocSet.containsAnyOf col cs :=
+  FuncsDomDocSet.containsAnyOf_generated_eq_model col cs
+
+theorem nonvacuous_containsAnyOf_generated :
+    FuncsAnalytics.containsAnyOf ["x", "prod"] ["prod", "dev"] = true ∧ FuncsAnalytics.containsAnyOf ["x"] ["prod"] = false := by
+  decide +kernel
 
 end Ytk.C18
